@@ -97,7 +97,21 @@ fn degenerate(t: &mut Tape, spec: &mut MapSpec) -> &'static str {
 fn case(t: &mut Tape, info: &mut CaseInfo) -> Result<(), String> {
     let mut prof = MapProfile::realistic(ALL_MODES, 60);
     prof.size_weights = [3, 5, 2];
-    let mut spec = gen_map(t, &prof);
+    run(t, info, &prof, false)
+}
+
+/// Long maps (hundreds to thousands of objects): the length bonuses and per-mod factors of the performance
+/// formulas only reach their extreme values there. Lazer-only mods are drawn more often than in G-DIFF.
+fn case_long(t: &mut Tape, info: &mut CaseInfo) -> Result<(), String> {
+    let mut prof = MapProfile::realistic(ALL_MODES, 2500);
+    prof.size_weights = [0, 0, 1];
+    prof.long_gaps = false;
+    prof.marathon_one_in = 0;
+    run(t, info, &prof, true)
+}
+
+fn run(t: &mut Tape, info: &mut CaseInfo, prof: &MapProfile, long: bool) -> Result<(), String> {
+    let mut spec = gen_map(t, prof);
     // realistic domain: AR/CS/OD/HP within [0, 10], as the editor produces
     for v in [&mut spec.cs, &mut spec.od, &mut spec.hp] {
         *v = v.clamp(0.0, 10.0);
@@ -111,6 +125,19 @@ fn case(t: &mut Tape, info: &mut CaseInfo) -> Result<(), String> {
     let family = if t.chance(1, 4) { degenerate(t, &mut spec) } else { "family:generic" };
     let target = pick_target(t, spec.mode);
     let mut dspec = gen_diff(t, &DiffProfile::realistic(), target);
+    if long && t.chance(1, 2) {
+        // every mod selectable in the game is a "setting reachable in the game"
+        dspec.mods.repr = crate::gen::diff::ModRepr::Lazer;
+        let e = match t.below(4) {
+            0 => LazerExtra::Acronym("BL"),
+            1 => LazerExtra::Acronym("TC"),
+            2 => LazerExtra::Classic,
+            _ => LazerExtra::Acronym(*t.pick(&crate::gen::diff::LAZER_ACRONYMS)),
+        };
+        if !dspec.mods.extras.contains(&e) {
+            dspec.mods.extras.push(e);
+        }
+    }
     // "settings reachable in the game": clock rates in [0.5, 2] (DiffProfile::realistic), overrides in [0, 11]
     let map = spec.decode();
     map_labels(&spec, info);
@@ -179,7 +206,7 @@ fn case(t: &mut Tape, info: &mut CaseInfo) -> Result<(), String> {
                 let origins = [
                     OsuScoreOrigin::Stable,
                     OsuScoreOrigin::WithSliderAcc { max_large_ticks: a.n_large_ticks, max_slider_ends: a.n_sliders },
-                    OsuScoreOrigin::WithoutSliderAcc { max_large_ticks: a.n_large_ticks, max_small_ticks: a.n_sliders },
+                    OsuScoreOrigin::WithoutSliderAcc { max_large_ticks: a.n_sliders + a.n_large_ticks, max_small_ticks: a.n_sliders },
                 ];
                 origins.iter().map(|o| s.accuracy(*o)).collect::<Vec<_>>()
             }
@@ -201,7 +228,95 @@ fn case(t: &mut Tape, info: &mut CaseInfo) -> Result<(), String> {
         info.sample = Some(json!({"map": spec.sample(), "family": family, "target": mode_name(target), "difficulty": dspec.describe(), "states": states}));
     }
     info.nontrivial = !spec.objects.is_empty() && any_hit;
+    if long {
+        info.label_if(spec.objects.len() > 1000, ">1000-objects");
+        info.nontrivial = spec.objects.len() > 800 && any_hit;
+    }
     info.set_key(&format!("{spec:?}{dspec:?}{target:?}{states:?}"));
+    Ok(())
+}
+
+/// Pure accuracy check over attribute shapes far larger than any generated map: the per-mode accuracy
+/// functions on states consistent with the counts (half of them perfect in every part).
+fn case_accuracy_shapes(t: &mut Tape, info: &mut CaseInfo) -> Result<(), String> {
+    use rosu_pp::{
+        catch::CatchScoreState,
+        mania::ManiaScoreState,
+        osu::{OsuScoreOrigin, OsuScoreState},
+        taiko::TaikoScoreState,
+    };
+    let big = |t: &mut Tape, small: i64, large: i64| if t.chance(2, 3) { t.range(0, small) as u32 } else { t.range(0, large) as u32 };
+    let perfect = t.chance(1, 2);
+    let share = |t: &mut Tape, max: u32| if perfect { max } else { t.range(0, i64::from(max)) as u32 };
+    let mode = t.below(4);
+    info.label(format!("mode={mode}"));
+    info.label_if(perfect, "perfect-in-every-part");
+    let (desc, accs): (String, Vec<f64>) = match mode {
+        0 => {
+            let circles = big(t, 40, 3000);
+            let sliders = big(t, 40, 2000);
+            let ticks = if sliders == 0 { 0 } else { sliders * t.range(0, 6) as u32 + t.range(0, i64::from(sliders)) as u32 };
+            let n = circles + sliders;
+            let n300 = share(t, n);
+            let n100 = if perfect { 0 } else { t.range(0, i64::from(n - n300)) as u32 };
+            let n50 = if perfect { 0 } else { t.range(0, i64::from(n - n300 - n100)) as u32 };
+            let s = OsuScoreState {
+                max_combo: 0,
+                large_tick_hits: share(t, ticks + sliders),
+                small_tick_hits: share(t, sliders),
+                slider_end_hits: share(t, sliders),
+                n300,
+                n100,
+                n50,
+                misses: n - n300 - n100 - n50,
+            };
+            let origins = [
+                OsuScoreOrigin::Stable,
+                OsuScoreOrigin::WithSliderAcc { max_large_ticks: ticks, max_slider_ends: sliders },
+                OsuScoreOrigin::WithoutSliderAcc { max_large_ticks: sliders + ticks, max_small_ticks: sliders },
+            ];
+            (format!("osu circles={circles} sliders={sliders} ticks={ticks} {s:?}"), origins.iter().map(|o| s.accuracy(*o)).collect())
+        }
+        1 => {
+            let n = big(t, 40, 5000);
+            let n300 = share(t, n);
+            let n100 = if perfect { 0 } else { t.range(0, i64::from(n - n300)) as u32 };
+            let s = TaikoScoreState { max_combo: 0, n300, n100, misses: n - n300 - n100 };
+            (format!("taiko {s:?}"), vec![s.accuracy()])
+        }
+        2 => {
+            let (fruits, droplets, tiny) = (big(t, 40, 3000), big(t, 40, 3000), big(t, 40, 6000));
+            let f = share(t, fruits);
+            let d = share(t, droplets);
+            let ti = share(t, tiny);
+            let s = CatchScoreState { max_combo: 0, fruits: f, droplets: d, tiny_droplets: ti, tiny_droplet_misses: tiny - ti, misses: fruits - f + droplets - d };
+            (format!("catch {s:?}"), vec![s.accuracy()])
+        }
+        _ => {
+            let n = big(t, 40, 6000);
+            let n320 = share(t, n);
+            let mut rem = n - n320;
+            let mut take = |t: &mut Tape| {
+                let v = if perfect { 0 } else { t.range(0, i64::from(rem)) as u32 };
+                rem -= v;
+                v
+            };
+            let (n300, n200, n100, n50) = (take(t), take(t), take(t), take(t));
+            let s = ManiaScoreState { n320, n300, n200, n100, n50, misses: rem };
+            (format!("mania {s:?}"), vec![s.accuracy(true), s.accuracy(false)])
+        }
+    };
+    if info.want_sample {
+        info.sample = Some(json!({"shape_and_state": desc, "accuracies": accs}));
+    }
+    for a in &accs {
+        info.comparisons += 1;
+        if !(0.0..=1.0).contains(a) {
+            return Err(format!("accuracy {a:?} outside [0,1]: {desc}"));
+        }
+    }
+    info.nontrivial = accs.iter().any(|a| *a > 0.0);
+    info.set_key(&desc);
     Ok(())
 }
 
@@ -215,6 +330,22 @@ pub fn property() -> Property {
             thorough: 400_000,
             tape_len: 1600,
             f: case,
+            direct: None,
+        }, SubCheck {
+            name: "long-maps",
+            rule: "as finite-nonnegative on G-MAP maps of 21..2500 objects without long gaps; in half of the cases the mods are given in the lazer representation with one more lazer-only mod (Blinds, Traceable, Classic or another acronym). Non-trivial: more than 800 objects and a state with >=1 hit.",
+            quick: 2_000,
+            thorough: 12_000,
+            tape_len: 26000,
+            f: case_long,
+            direct: None,
+        }, SubCheck {
+            name: "accuracy-shapes",
+            rule: "attribute shapes without a map (osu: up to 3000 circles, 2000 sliders, 0-7 ticks per slider; taiko up to 5000 hits; catch up to 3000 fruits / 3000 droplets / 6000 tiny droplets; mania up to 6000 judgements) x a state consistent with the counts, half of them perfect in every part. Oracle: <Mode>ScoreState::accuracy (all three osu! origins, both mania models) lies in [0,1]. Non-trivial: accuracy > 0.",
+            quick: 300_000,
+            thorough: 3_000_000,
+            tape_len: 24,
+            f: case_accuracy_shapes,
             direct: None,
         }],
         assumptions: &["AR, OD, HP, CS and hit-window fields may legitimately be negative or exceed 10 under overrides; only finiteness is required of them"],
